@@ -15,7 +15,7 @@
    [P] partial.  What is NOT proved (covered by the correspondence + the oracles of checks/c07.py only) is listed at
    C07_order_inv_partial. *)
 From AV Require Import Base.Bytes Base.Outcome Hash.HashModel Spec.SpecOps Spec.SpecReal Tree.Heap Tree.Ops Tree.Range Tree.ValidSubs
-  Tree.SpecWF Tree.SpecWFReal Tree.RangeProofsCalc Tree.RangeProofsOps Tree.RangeProofsLoader Tree.RangeProofsReal Tree.RangeProofsParser Tree.RangeProofsNamed.
+  Tree.SpecWF Tree.SpecWFReal Tree.RangeProofsCalc Tree.RangeProofsOps Tree.RangeProofsLoader Tree.RangeProofsReal Tree.RangeProofsParser Tree.RangeProofsNamed Tree.CopyProofsDefs Tree.RangeProofsInv.
 From AV Require Xml.Parser.
 Open Scope list_scope.
 Open Scope N_scope.
@@ -144,10 +144,9 @@ Theorem C07_allowed_iff :
    exists (c : id) (w2 : world), e_create_sub_element T LATEST h (vi_name vi) w = Val (OK c, w2)).
 Proof. exact allowed_iff_create. Qed.
 
-(* [P] specification order is an invariant of the editing calls — PROVED for create_sub_element_at, create_sub_element and for
-   removing any child.  NOT proved in Coq (the operations compute the same range for the element's name and insert inside it;
-   tied by the correspondence and checked on the implementation after every operation by the order oracle of
-   `avh range hist`): create_named_sub_element[_at], create_copied_sub_element[_at], move_element_here[_at].
+(* [P->U] specification order is an invariant of the editing calls.  This first statement (kept as pinned) covers
+   create_sub_element_at, create_sub_element and removing any child; C07_order_inv_named / _copy / _move below cover
+   create_named_sub_element[_at], get_or_create[_named], create_copied_sub_element[_at] and move_element_here[_at].
    Full statement: for every op of Tree/Script.v that returns OK, every parent whose child list was Ordered (for its
    min_version) before is Ordered after. *)
 Theorem C07_order_inv_partial :
@@ -172,6 +171,70 @@ Theorem C07_order_inv_partial :
   (forall (ty : etype) (v : N) (items : list (option N)) (k : nat),
      Ordered T ty v items -> Ordered T ty v (remove_at items k)).
 Proof. exact order_inv_partial. Qed.
+
+(* [U] the order invariant for the named creations and get_or_create (the child list of the parent after a successful call) *)
+Theorem C07_order_inv_named :
+  forall (T : tables) (check_fn : N -> list N -> res bool) (LATEST : N), SpecWF T ->
+  forall (h : id) (n : node) (m v name : N) (item : list N) (w : world) (c : id) (w' : world) (items : list (option N)),
+  w_nodes w h = Some n -> w_nodes w (w_next w) = None -> w_nodes w (w_next w + 1) = None ->
+  model_of h w = Val (OK m, w) -> min_version LATEST h w = Val (OK v, w) ->
+  items_of w (n_content n) = Some items -> Ordered T (n_type n) v items ->
+  (forall pos, e_create_named_sub_element_at T check_fn LATEST h name item pos w = Val (OK c, w') ->
+     exists n', w_nodes w' h = Some n' /\ n_type n' = n_type n /\
+       items_of w' (n_content n') = Some (ins items (N.to_nat pos) (Some name)) /\
+       Ordered T (n_type n) v (ins items (N.to_nat pos) (Some name))) /\
+  (e_create_named_sub_element T check_fn LATEST h name item w = Val (OK c, w') \/
+   e_get_or_create_named_sub_element T check_fn LATEST h name item w = Val (OK c, w') \/
+   e_get_or_create_sub_element T LATEST h name w = Val (OK c, w') ->
+     exists n' items', w_nodes w' h = Some n' /\ n_type n' = n_type n /\
+       items_of w' (n_content n') = Some items' /\ Ordered T (n_type n) v items').
+Proof. exact order_inv_named. Qed.
+
+(* [U] ... for create_copied_sub_element[_at]: the copy is inserted inside the range of ITS name (hypothesis Closed w: every
+   allocated id is below w_next and every listed child exists — part of C03's invariant; the known class
+   copy-keeps-source-type concerns the type of the copy, not the order of the destination's children) *)
+Theorem C07_order_inv_copy :
+  forall (T : tables) (LATEST : N), SpecWF T ->
+  forall (h other : id) (n o : node) (m v : N) (w : world) (c : id) (w' : world) (items : list (option N)),
+  Closed w -> w_nodes w h = Some n -> w_nodes w other = Some o ->
+  model_of h w = Val (OK m, w) -> min_version LATEST h w = Val (OK v, w) ->
+  items_of w (n_content n) = Some items -> Ordered T (n_type n) v items ->
+  (forall pos, e_create_copied_sub_element_at T LATEST h other pos w = Val (OK c, w') ->
+     exists n', w_nodes w' h = Some n' /\ n_type n' = n_type n /\
+       items_of w' (n_content n') = Some (ins items (N.to_nat pos) (Some (n_name o))) /\
+       Ordered T (n_type n) v (ins items (N.to_nat pos) (Some (n_name o)))) /\
+  (e_create_copied_sub_element T LATEST h other w = Val (OK c, w') ->
+     exists n' items', w_nodes w' h = Some n' /\ n_type n' = n_type n /\
+       items_of w' (n_content n') = Some items' /\ Ordered T (n_type n) v items').
+Proof. exact order_inv_copy. Qed.
+
+(* [U] ... for move_element_here[_at]: inside the same parent (Ops.move_element_position with the bound of fix 4d404e9), and
+   from another parent in the same or another model — there the destination AND every other node keep their order (for
+   every version): all steps before the insertion only shrink child lists as subsequences.  The remaining combination
+   "parent link names h but the models differ" cannot occur in a world satisfying C03's invariant and is not covered. *)
+Theorem C07_order_inv_move :
+  forall (T : tables) (tab_en : nametab) (check_fn : N -> list N -> res bool) (LATEST : N), SpecWF T ->
+  forall (h mv : id) (n mn : node) (ms m vs v : N) (w : world) (c : id) (w' : world) (items : list (option N)),
+  w_nodes w h = Some n -> w_nodes w mv = Some mn ->
+  model_of mv w = Val (OK ms, w) -> model_of h w = Val (OK m, w) ->
+  min_version LATEST mv w = Val (OK vs, w) -> min_version LATEST h w = Val (OK v, w) ->
+  items_of w (n_content n) = Some items -> Ordered T (n_type n) v items ->
+  (* inside the same parent (then both belong to the same model and version) *)
+  (n_parent mn = PElem h -> ms = m -> vs = v ->
+   forall pos, e_move_element_here_at T tab_en check_fn LATEST h mv pos w = Val (OK c, w') ->
+     exists n' items', w_nodes w' h = Some n' /\ n_type n' = n_type n /\
+       items_of w' (n_content n') = Some items' /\ Ordered T (n_type n) v items') /\
+  (* from another parent, same or other model: the destination and EVERY other node stay ordered *)
+  (n_parent mn <> PElem h ->
+   (exists pos, e_move_element_here_at T tab_en check_fn LATEST h mv pos w = Val (OK c, w')) \/
+   e_move_element_here T tab_en check_fn LATEST h mv w = Val (OK c, w') ->
+     (exists n' items', w_nodes w' h = Some n' /\ n_type n' = n_type n /\
+        items_of w' (n_content n') = Some items' /\ Ordered T (n_type n) v items') /\
+     (forall i ni itemsi vi, i <> h -> w_nodes w i = Some ni -> items_of w (n_content ni) = Some itemsi ->
+        Ordered T (n_type ni) vi itemsi ->
+        exists ni' itemsi', w_nodes w' i = Some ni' /\ n_type ni' = n_type ni /\
+          items_of w' (n_content ni') = Some itemsi' /\ Ordered T (n_type ni) vi itemsi')).
+Proof. exact order_inv_move. Qed.
 
 (* [U] what the editor calls ordered is accepted by the loader's child-list checks: no ElementChoiceConflict, no
    TooManySubElements, no table panic *)
